@@ -1306,7 +1306,7 @@ def run(ctx):
                             "(3-12 variables, up to 60 clauses), structured (all sign patterns, pigeonhole, parity chains, implication ladders; shuffled, "
                             "renamed, polarity-flipped), and messy (1-8 variables, unit/empty/duplicate clauses, repeated and complementary literals); in "
                             "the thorough tier also every combination of <=3 clauses out of the 84 clause multisets of width <=3 over 3 variables and every "
-                            "combination of 4 out of the 42 clause sets, each in enumeration order, every third also in one shuffled order; histories: the same clause set presented again in the same process permuted, with reversed literals, with a repeated clause or literal. "
+                            "combination of 4 out of the 42 clause sets, each in enumeration order, every fourth also in one shuffled order; histories: the same clause set presented again in the same process permuted, with reversed literals, with a repeated clause or literal. "
                             "Non-trivial = at least two clauses and one clause of width >=2; distinct by the literal lists. The histogram records how many "
                             "resolution calls / learned clauses each run needed. Tseitin: fixed corner cases, random formulas of depth <=3 over atom pools that "
                             "include variables named x1..x6 (the names encode generates), x, x0, x01, x10, y1, the constants true/false and "
@@ -1336,7 +1336,7 @@ def run(ctx):
     rng = ctx.rng("cnf")
     corpus = load_corpus(ctx)
     check_cases(ctx, sat, corpus, "corpus")
-    cases = gen_random(rng, ctx.scale(3000, 25000))
+    cases = gen_random(rng, ctx.scale(3000, 18000))
     for c in cases[:3]:
         ctx.sample({"cnf": c})
     have_model = check_cases(ctx, sat, cases, "random")
@@ -1349,7 +1349,7 @@ def run(ctx):
             batch.append(cnf)
             # the enumeration fixes clause and literal order (pool order): also a shuffled copy of every case with >= 2 literals
             nexh += 1
-            if nexh % 3 == 0 and sum(len(cl) for cl in cnf) >= 2:
+            if nexh % 4 == 0 and sum(len(cl) for cl in cnf) >= 2:
                 sh = [prng.sample(cl, len(cl)) for cl in cnf]
                 prng.shuffle(sh)
                 if sh != cnf:
@@ -1361,7 +1361,7 @@ def run(ctx):
             check_cases(ctx, sat, batch, "exhaustive")
         ctx.coverage["exhaustive"] = False  # exhaustive for the stated sub-space only
         ctx.coverage["exhaustive_subspace"] = ("all <=3-clause combinations of the 84 clause multisets of width <=3 over 3 variables, and all "
-                                               "4-clause combinations of the 42 clause sets of width <=3 over 3 variables; each in pool order, every third also once with "
+                                               "4-clause combinations of the 42 clause sets of width <=3 over 3 variables; each in pool order, every fourth also once with "
                                                "clauses and literals shuffled")
     if not have_model:
         ctx.broken("correspondence:c15:driver", "model driver unavailable")
